@@ -119,6 +119,12 @@ func runC03(c *Ctx) {
 		}
 		rec([]byte{})
 		strBodies(5, func(body []byte) { try(quoted(body)) })
+		tokenSeqs(5, func(doc []byte) {
+			// (those that open an object or an array, and the very short ones)
+			if l := len(doc); l > 0 && (l <= 4 || doc[0] == '{' || doc[0] == '[') {
+				try(append([]byte(nil), doc...))
+			}
+		})
 		c.Rep.Exhaustive = append(c.Rep.Exhaustive, fmt.Sprintf("%d marshaler results (all byte strings of length <= 3 over the 26-symbol alphabet, all string literals with a body of length <= 5 over the escape alphabet) in 5 positions x 8 entry points", n))
 	}
 	c.RunCases("values", ntypes, func(c *Ctx, k int, rng *rand.Rand) {
